@@ -68,6 +68,7 @@ def run(ctx):
             perm_sets.append([rendered[i] for i in p])
             owner.append(k)
     pres = mergecheck.run_sets(ctx, perm_sets, "perm")
+    mergecheck.coq_spec_check(ctx, perm_sets, pres)
     ctx.extra["permuted_lists"] = len(perm_sets)
     for k, ps, r in zip(owner, perm_sets, pres):
         if r[0] is None or res[k][0] is None:
